@@ -58,6 +58,7 @@ struct Ctx {
     std::atomic<int> ctor_fired{0}, alloc_fired{0};
     // class T: the allocation of the long segment table (64 pointers) fails, after a delay that lets other growth calls reach their wait for it
     std::atomic<long> table_arm{-1}; std::atomic<int> table_fired{0}; std::atomic<uint32_t> table_delay_us{0};
+    std::atomic<long> first_arm{-1}; std::atomic<int> first_fired{0};      // class F: the k-th element-storage allocation fails, after table_delay_us
     // harness-side delay point at the entry of allocate(): probability in 1/65536
     std::atomic<uint32_t> alloc_delay_prob{0};
     std::atomic<long> alloc_delays{0};
@@ -121,6 +122,10 @@ inline void* raw_allocate(size_t n, size_t esize, bool elem) {
     }
     long a = c->alloc_arm.load(kRlx);
     if (a >= 0 && c->alloc_arm.fetch_sub(1, kRlx) == 0) { c->alloc_fired.fetch_add(1, kRlx); t.bad_allocs++; throw std::bad_alloc(); }
+    if (elem && c->first_arm.load(kRlx) >= 0 && c->first_arm.fetch_sub(1, kRlx) == 0) {
+        if (uint32_t d = c->table_delay_us.load(kRlx)) sleep_us(d);
+        c->first_fired.fetch_add(1, kRlx); c->alloc_fired.fetch_add(1, kRlx); t.bad_allocs++; throw std::bad_alloc();
+    }
     if (!elem && n == 64 && esize == sizeof(void*) && c->table_arm.load(kRlx) >= 0 && c->table_arm.fetch_sub(1, kRlx) == 0) {
         if (uint32_t d = c->table_delay_us.load(kRlx)) sleep_us(d);
         c->table_fired.fetch_add(1, kRlx); c->alloc_fired.fetch_add(1, kRlx); t.bad_allocs++; throw std::bad_alloc();
@@ -288,7 +293,7 @@ struct InCall {
 };
 
 inline const char* cls_name(int c) {
-    switch (c) { case 'G': return "G"; case 'E': return "E"; case 'S': return "S"; case 'a': return "Salloc"; case 'M': return "M"; case 'T': return "T"; case 'H': return "H"; }
+    switch (c) { case 'G': return "G"; case 'E': return "E"; case 'S': return "S"; case 'a': return "Salloc"; case 'M': return "M"; case 'T': return "T"; case 'F': return "F"; case 'H': return "H"; }
     return "X";
 }
 inline std::string key_of(int cls, const std::string& what) { return std::string("c11.") + cls_name(cls) + "." + what; }
